@@ -598,6 +598,37 @@ func sweepAgreement(p *Prog, pc *PropConfig, tags string, r *checkResult) {
 		}
 		s.oblige(multi, "agreement", "element "+n, multi.Pos(), ok, why)
 	}
+	// --- alphabet: RawCBOR is rendered with one base64 alphabet on both sides (JSON encoder, CBOR decoder)
+	used := map[string][]string{}
+	for _, fn := range p.AllFns {
+		if !p.inModule(fn) || len(fn.Blocks) == 0 {
+			continue
+		}
+		for _, b := range fn.Blocks {
+			for _, in := range b.Instrs {
+				if u, ok := in.(*ssa.UnOp); ok && u.Op == token.MUL {
+					if g, ok := u.X.(*ssa.Global); ok && g.Pkg != nil && g.Pkg.Pkg.Path() == "encoding/base64" {
+						used[g.Name()] = append(used[g.Name()], shortFn(fn))
+					}
+				}
+			}
+		}
+	}
+	var alph []string
+	for k := range used {
+		alph = append(alph, k)
+	}
+	sort.Strings(alph)
+	okAlph := len(alph) == 1 && alph[0] == "StdEncoding"
+	whyAlph := fmt.Sprintf("every base64 rendering in the module (JSON encoder and CBOR decoder of RawCBOR: %s) uses base64.StdEncoding", strings.Join(used["StdEncoding"], ", "))
+	if !okAlph {
+		var parts []string
+		for _, k := range alph {
+			parts = append(parts, k+" in "+strings.Join(used[k], ", "))
+		}
+		whyAlph = "RawCBOR must be rendered with base64.StdEncoding by the JSON encoder and by the CBOR decoder alike; found: " + strings.Join(parts, "; ")
+	}
+	s.oblige(fieldList, "agreement", "base64 alphabet", fieldList.Pos(), okAlph, whyAlph)
 	r.notes = append(r.notes, fmt.Sprintf("agreement sweep [%s]: %d *Event methods with a single value-encoder call; %d Context/Array counterparts compared; %d Fields arms; %d slice encoders; structured methods left to their own contracts: %s", buildName(tags), nSimple, nFront, nArms, nElem, strings.Join(skipped, ", ")))
 	if nFront < 40 || nArms < 30 || nElem < 10 {
 		r.errors = append(r.errors, fmt.Sprintf("agreement sweep compared only %d front-end pairs, %d Fields arms, %d slice encoders", nFront, nArms, nElem))
